@@ -49,6 +49,7 @@ class Ctx(object):
         self.assumptions = []
         self.notes = []
         self.unrecognised = []
+        self.errors = []
         self._seen_reports = set()
 
     def _rule(self, rule):
@@ -114,8 +115,24 @@ class Ctx(object):
         if text not in self.assumptions:
             self.assumptions.append(text)
 
+    def guard(self, fn, *args, **kw):
+        """Run one rule; an AnalysisError (or an internal error) in it does not hide the verdicts of the other rules."""
+        try:
+            return fn(*args, **kw)
+        except AnalysisError as exc:
+            self.errors.append('%s: %s' % (fn.__name__, exc))
+        except Exception as exc:
+            import traceback
+            self.errors.append('%s: internal error %s: %s @ %s' % (fn.__name__, type(exc).__name__, exc,
+                                                                  traceback.format_exc().strip().splitlines()[-2].strip()))
+        return None
+
     def check_unrecognised(self):
-        if self.unrecognised and not self.reports:
+        if self.reports:
+            return      # a violation is a verdict; undecided parts are listed in the evidence
+        if self.errors:
+            raise AnalysisError(' | '.join(self.errors[:3]))
+        if self.unrecognised:
             raise AnalysisError('unrecognised idiom(s): ' + ' | '.join(self.unrecognised[:3]))
 
     def check_floors(self):
@@ -206,6 +223,10 @@ def finish(ctx, t0, error=None, selftest=None, quiet=False):
     )
     if error is not None:
         coverage['analysis_error'] = str(error)
+    if ctx.errors:
+        coverage['undecided_rules'] = ctx.errors
+    if ctx.unrecognised:
+        coverage['unrecognised_idioms'] = ctx.unrecognised
     if selftest is not None:
         coverage['selftest'] = selftest
     ev = dict(property_id=prop, tier=ctx.tier, seed=int(os.environ.get('VERIF_SEED', '0') or 0),
